@@ -24,15 +24,55 @@ COMMON_ASSUMPTIONS = {
 }
 
 
-def e2(run, oracle, quick_checks=40, thorough_checks=900, extra_rule=""):
-    return {
-        "flavour": "instr", "pkg": "./zzverif/props/", "run": run, "gomaxprocs": 1,
-        "quick": {"shards": 16, "checks": quick_checks, "timeout": 600},
-        "thorough": {"shards": 16, "checks": thorough_checks, "timeout": 3 * 3600, "shrinktime": "60s"},
-        "rule": E2_RULE + "Oracle: " + oracle + extra_rule,
-    }
 
+E1_RULE = ("Cases are generated call sequences (rapid v1.3.0 state machine, average length from -rapid.steps) over one cache "
+           "built by a generated constructor variant, interleaved with generated clock advances that land exactly on, one tick "
+           "before or one tick after the expiry instant of a live entry, by small random amounts or by seconds; TTL arguments "
+           "from the boundary set {NoExpiration, DefaultExpiration, other negatives, 0, 1, 2, small, 1s, 2^62}; bulk inserts/"
+           "deletes of 40-400 keys cross the grow thresholds. Every call runs as a one-thread controlled execution (self-"
+           "deadlock and endless spin are detected) and is compared with the TTL reference model; Items()/Count() read-back "
+           "every few steps and at the end. evaluations = cases. A case is non-trivial when a value-returning call touched an "
+           "expired-but-uncleaned key, or a call happened with the clock exactly on or one tick around the entry's expiry "
+           "instant, or a bulk insert with TTLs crossed the resize threshold, or an evicted callback fired; distinct = "
+           "distinct hash of the full call sequence. ")
+
+
+def tiers(q_shards, q_checks, t_shards, t_checks, q_timeout=600, t_timeout=3 * 3600, steps=None, tsteps=None):
+    q = {"shards": q_shards, "checks": q_checks, "timeout": q_timeout}
+    t = {"shards": t_shards, "checks": t_checks, "timeout": t_timeout, "shrinktime": "60s"}
+    if steps:
+        q["steps"] = steps
+        t["steps"] = tsteps or steps
+    return {"quick": q, "thorough": t}
+
+
+def part(name, run, q_checks, t_checks, shards=16, steps=None, tsteps=None):
+    d = {"name": name, "run": run}
+    d.update(tiers(shards, q_checks, shards, t_checks, steps=steps, tsteps=tsteps))
+    return d
+
+
+def instr(parts, rule, assumptions=None):
+    return {"flavour": "instr", "pkg": "./zzverif/props/", "gomaxprocs": 1, "parts": parts, "rule": rule,
+            "assumptions": assumptions or []}
+
+
+LIN = ("Wing-Gong linearizability search of the recorded history (sequential prefix, concurrent phase, quiescent read-back of "
+       "every key, Size/Count and Range/Items) against the reference model; Range/Items decomposed into one pseudo-read per "
+       "key, DeleteExpired into one sweep per key (its observation = the callback ledger of that call); direct checks: phantom "
+       "keys/values, duplicate visits, each stored value reported to the callback at most once, user-function call counts and "
+       "arguments, quiescent Size == Range visits == successful Loads; scheduler deadlock / no-progress / panic detectors.")
 
 PROPS = {
-    "C03": e2("^TestC03$", "Wing-Gong linearizability search of the recorded history (prefix + concurrent phase + quiescent read-back of every key, Size and Range) against the map reference model; Range decomposed per key; direct checks for phantom keys/values, duplicate visits, quiescent Size == Range visits == successful Loads; scheduler deadlock / no-progress / panic detectors."),
+    "C01": instr([part("e1", "^TestC01$", 2500, 60000, steps=60, tsteps=90)], E1_RULE + "Oracle: TTL reference model, step by step."),
+    "C02": instr([part("e2", "^TestC02$", 450, 9000)], E2_RULE + "Oracle: " + LIN),
+    "C03": instr([part("e2", "^TestC03$", 450, 9000)], E2_RULE + "Oracle: " + LIN),
+    "C04": instr([part("e2", "^TestC04$", 450, 9000)], E2_RULE + "Oracle: " + LIN),
+    "C05": instr([part("e2", "^TestC05$", 450, 9000)], E2_RULE + "All thread calls target ONE key (absent, live or expired-uncleaned). Oracle: " + LIN),
+    "C06": instr([part("e1", "^TestC06E1$", 2500, 60000, steps=60, tsteps=90), part("e2", "^TestC06E2$", 300, 6000)],
+                 "Two engines. (e1) " + E1_RULE + "(e2) " + E2_RULE + "Oracle: callback ledger against the model's must/may sets (e1), ledger inside the linearizability check (e2). " + LIN),
+    "C08": instr([part("e1", "^TestC08E1$", 2500, 60000, steps=60, tsteps=90), part("e2", "^TestC08E2$", 300, 6000)],
+                 "Two engines. (e1) " + E1_RULE + "(e2) " + E2_RULE + "Oracle: at every quiescent point Size()/Count() == Range visits == successful Loads == model (maps), Count interval / exact after DeleteExpired / 0 after Clear (caches). " + LIN),
+    "C09": instr([part("e1", "^TestC09$", 2500, 60000, steps=60, tsteps=90)], E1_RULE + "Generator weighted to constructors x boundary TTLs/defaults x GetWithExpiration/GetWithTTL/SetDefaultExpiration. Oracle: exact instants from the TTL model."),
+    "C13": instr([part("e2", "^TestC13$", 450, 9000)], E2_RULE + "Weights on Clear, Range, resize triggers, re-entrant callbacks. Oracle: scheduler deadlock detector (some thread unfinished, none runnable), no-progress detector (step budget 60x the non-preemptive run + 20000), quiescent read-back touching every bucket lock. " + LIN),
 }
